@@ -196,7 +196,7 @@ func init() {
 	})
 
 	engine.RegisterCheck("C06", func(r *engine.Run) {
-		r.Rule = "SEQ, differential: every write history up to the stated depth; after each operation the current-state answers (entity lookups per scope, relationship queries with limits 0 and 1) are recorded as the truth for the instants exactly at, 1ns before and 1ns after that commit; at the end of every history every recorded instant is re-evaluated as a point-in-time query (continuations pin the instant) and compared with its truth; in the reference-shaped search a client also starts a paged current-state query (limit 1, outgoing * / incoming p) and fetches the remaining pages after later writes: the union must be what the graph gave when the query was started; the same client through POST /query with several starting entities (several continuation tokens per request)"
+		r.Rule = "SEQ, differential: every write history up to the stated depth; after each operation the current-state answers (entity lookups per scope, relationship queries with limits 0 and 1) are recorded as the truth for the instants exactly at, 1ns before and 1ns after that commit; at the end of every history every recorded instant is re-evaluated as a point-in-time query (continuations pin the instant) and compared with its truth; in the reference-shaped search a client also starts a paged current-state query (limit 1, outgoing * / incoming p) and fetches the remaining pages after later writes: the union must be what the graph gave when the query was started; the same client through POST /query with several starting entities (several continuation tokens per request); and every commit instant (at, 1 ns before, 1 ns after) as POST /query continuations pinned to it (the handler's own token encoding), unpaged and with limit 1, against the current-state answer taken at that instant"
 		r.Assumptions = []string{"badger transactions are linearizable", "commit times are the implementation's real clock; only their order matters"}
 		ids2 := []string{"e1", "e2"}
 		alpha := vWriteAlphabet(vDS, ids2, poolIdx("v1", "v2", "dv1", "r2", "r23", "dr2", "dv2", "r3"), poolIdx("v1", "dv1", "r2"), [][2]int{{0, 2}})
@@ -254,6 +254,8 @@ func init() {
 		}
 		hq = append(hq, VOp{K: "batch", DS: "A", Ents: []VEnt{{"e3", poolIdx("r2")[0]}}}, VOp{K: "batch", DS: "A", Ents: []VEnt{{"e2", poolIdx("r23")[0]}}}, VOp{K: "batch", DS: "A", Ents: []VEnt{{"e3", poolIdx("e")[0]}}})
 		hq = append(hq, VOp{K: "qstart"}, VOp{K: "qstart", LO: true}, VOp{K: "qcont"})
+		// every commit instant (exactly at, 1 ns before, 1 ns after) as a pinned POST /query continuation
+		engine.RunSeq(r, engine.SeqSpec{Name: "c06-http-pinned-instants", WorkerArgs: []string{"worker", "http-store"}, Alphabet: vOpsJSON(hq[:6]), Params: storeParams("c06pit", vDS, vIDs), Depth: rdepth, Budget: budget})
 		engine.RunSeq(r, engine.SeqSpec{Name: "c06-http-continued-query", WorkerArgs: []string{"worker", "http-store"}, Alphabet: vOpsJSON(hq), Params: storeParams("none", vDS, vIDs), Depth: rdepth + 1, Budget: budget})
 	})
 }
